@@ -1,0 +1,8 @@
+//go:build verif
+
+package bignum
+
+// Contracts read by /verif/cmd/lvc (comment-only file).
+
+//@ afunc ToComplex
+//@   trusted opaque at the abstract level: a big complex number
